@@ -82,10 +82,13 @@ pub fn generator_spec(path: &str, args: &[(String, String)]) -> String {
 }
 
 pub const GEN_PATHS: &[&str] = &["gen-alpha", "tools/beta.exe", "/usr/local/bin/gamma", "./delta gen", "EPSILON.sh", "we,ird=zeta"];
-pub const POOL: &[&str] = &["a.txt", "gen/b.cs", "c.rs", "deep/er/d.txt", "same.txt", "diff.txt", "adir", "ro.txt", "x.txt", "./dot.txt", "gen/./c2.cs"];
+pub const POOL: &[&str] = &["a.txt", "gen/b.cs", "c.rs", "deep/er/d.txt", "same.txt", "diff.txt", "adir", "ro.txt", "x.txt", "./dot.txt", "gen/./c2.cs", "empty.txt", "rosame.txt"];
 
 /// Deterministic contents of a generated file: a function of (path, version, big).
 pub fn content_for(path: &str, version: u8, big: bool) -> Vec<u8> {
+    if path == "empty.txt" && version == 0 {
+        return Vec::new(); // a generated file may be empty, and an existing empty file is then identical
+    }
     let mut c = format!("// {} v{}\n", path, version).into_bytes();
     if big {
         let mut i = 0;
@@ -204,9 +207,9 @@ fn place_output(rng: &mut Rng, world: &mut World) -> Option<String> {
     };
     if situation <= 4 || situation == 6 {
         // pre-existing files below the output root: identical, different, a directory in the way, sub-directories
-        let pre: &[(&str, u8)] = &[("same.txt", 0), ("diff.txt", 7), ("a.txt", 1), ("x.txt", 0)];
+        let pre: &[(&str, u8)] = &[("same.txt", 0), ("diff.txt", 7), ("a.txt", 1), ("x.txt", 0), ("empty.txt", 0), ("empty.txt", 7)];
         for (name, ver) in pre {
-            if rng.chance(1, 2) {
+            if rng.chance(1, 2) && !world.entries.iter().any(|e| e.path == format!("{base}{name}")) {
                 let content = if *ver == 7 { b"something else entirely\n".to_vec() } else { content_for(name, *ver, false) };
                 world.entries.push(Entry { path: format!("{base}{name}"), kind: EntryKind::File { content: String::from_utf8(content).unwrap(), hex: None }, mode: None });
             }
@@ -219,6 +222,10 @@ fn place_output(rng: &mut Rng, world: &mut World) -> Option<String> {
         }
         if rng.chance(1, 4) {
             world.entries.push(Entry { path: format!("{base}deep/er"), kind: EntryKind::Dir, mode: None });
+        }
+        if rng.chance(1, 3) {
+            // read-only AND identical to version 0 of what a generator may send: nothing needs writing, nothing fails
+            world.entries.push(Entry { path: format!("{base}rosame.txt"), kind: EntryKind::File { content: String::from_utf8(content_for("rosame.txt", 0, false)).unwrap(), hex: None }, mode: Some(0o444) });
         }
         if rng.chance(1, 4) {
             world.entries.push(Entry { path: format!("{base}ro.txt"), kind: EntryKind::File { content: "read-only\n".into(), hex: None }, mode: Some(0o444) });
@@ -832,7 +839,9 @@ pub fn judge(s: &Scenario, r: &RunResult) -> Judged {
         ));
     }
     // a write that failed (world or injected fault) is a cause even if a later generator rewrote the file correctly
-    let write_trouble = all_writes.keys().any(|lp| create_blocked(&r.before, lp) || fs_faults_fired_on(r, lp));
+    // (a file that already holds exactly what every reply wants in it needs no write, so it cannot be a cause)
+    let needs_no_write = |lp: &String, writes: &Vec<Vec<u8>>| matches!(r.before.get(lp), Some(b) if b.kind == NodeKind::File && writes.iter().all(|w| *w == b.content));
+    let write_trouble = all_writes.iter().any(|(lp, writes)| (create_blocked(&r.before, lp) && !needs_no_write(lp, writes)) || fs_faults_fired_on(r, lp));
     if should_generate && out.failed_generators == 0 && blocked_paths == 0 && !write_trouble && !errors.is_empty() {
         vio.push(v("error-without-cause", format!("clean compile, every generator did fine, yet: {:?}", errors.iter().map(|d| d.message.clone()).collect::<Vec<_>>())));
     }
